@@ -21,7 +21,7 @@ from vf.core import CaseResult, Ctx, Violation, hyp_run, exc_sig
 
 PROP_ID = 'C13'
 LEVEL = 'exploration'
-BUDGET = {'quick': 4000, 'thorough': 120000}
+BUDGET = {'quick': 3000, 'thorough': 100000}
 MANIFEST = {
     'engine': 'P',
     'technique': 'Hypothesis trigger trees through real config/TaskProxy, '
@@ -185,6 +185,7 @@ def cases(draw):
 
     case['tree'] = build(atoms, 1)
     case['ws'] = draw(st.integers(0, 2))
+    case['wrap'] = draw(st.integers(0, 3)) == 0
     case['order'] = draw(st.lists(st.integers(0, 9999), min_size=14,
                                   max_size=14))
     return case
@@ -236,7 +237,10 @@ def render(case, tree, top=True):
             parts.append(s)          # flatten same-operator child
         else:
             parts.append(f'( {s} )' if ws == 2 else f'({s})')
-    return sep.join(parts)
+    out = sep.join(parts)
+    if top and case.get('wrap'):
+        out = f'({out})'     # one parenthesised entity: not split on &
+    return out
 
 
 def leaves(tree):
@@ -364,6 +368,12 @@ def attribute(case, residuals, exc):
     texts = [(a, atom_text(case, a, mark=False)) for a in atoms]
     junk = R.replace('\x00', '').replace('\x01', '')
     junk = re.sub(r'[|&()]', '', junk)
+    # prerequisite: '+' prefixed (expanded year) points: \b before '+' fails
+    if case.get('xy'):
+        for a in atoms:
+            for (p, t, m) in atom_keys(case, a):
+                if f'{p}/{t}{m}'.replace(' ', '') in R:
+                    return 'expanded-year-point-not-substituted'
     # graph parser: r'\b%s\b%s:%s(?!:)' (offset form has no trailing \b)
     for a, ta in texts:
         if a['k'] != 0 and a['s'] == 1 and a['o'] in SHORT:
@@ -375,6 +385,10 @@ def attribute(case, residuals, exc):
                 if tb.startswith(head + short) and len(tb) > len(head + short):
                     bad = (head + a['o'] + tb[len(head + short):])
                     if bad.replace(' ', '') in R:
+                        if tb[len(head + short)] == '-':
+                            # "\b" after the short qualifier sees "-"
+                            return ('graph-rewrite:'
+                                    'short-qualifier-before-hyphen')
                         return 'graph-rewrite:offset-short-qualifier-prefix'
     # graph parser: `expr.replace("name:finished", "(…)")` without boundary
     for a, ta in texts:
@@ -390,7 +404,7 @@ def attribute(case, residuals, exc):
         if _nonword_end(a['t']) and (
                 qual_text(a) == '' or (a['k'] != 0 and a['s'] == 1
                                        and a['o'] in SHORT)):
-            if ta.replace(' ', '') in R:
+            if re.search(r'(?<![/\w])' + re.escape(ta) + r'(?![\w])', R):
                 return 'graph-rewrite:name-ends-nonword'
     # graph parser: r'\bNAME\b(?![\[:])' hits NAME as a token of another name
     for a, ta in texts:
@@ -423,12 +437,6 @@ def attribute(case, residuals, exc):
     for (p, t, m) in keys:
         if ('-' + p, t, m) in keys and '-\x00' in R:
             return 'negative-point-matched-by-positive-point-pattern'
-    # prerequisite: '+' prefixed (expanded year) points: \b before '+' fails
-    if case.get('xy'):
-        for a in atoms:
-            for (p, t, m) in atom_keys(case, a):
-                if f'{p}/{t}{m}'.replace(' ', '') in R:
-                    return 'expanded-year-point-not-substituted'
     # prerequisite: message text spliced with \b...\b and "..."
     for a in atoms:
         if a['o'] in SHORT:
@@ -507,6 +515,9 @@ def check_case(case, ctx: Ctx) -> CaseResult:
         classes.append('same-atom-two-spellings')
     if not case['opt']:
         classes.append('required-outputs')
+    if not has_or(tree) and (case.get('wrap') or any(
+            not isinstance(c, dict) for c in tree[1:])):
+        classes.append('and-only-single-prerequisite')
     nontrivial = has_or(tree) and (
         substr or name_substr
         or any(re.search(r'[^\w ]', m) for m in msgs))
